@@ -104,6 +104,10 @@ def run(prop, tier):
             ("wfcd", {"CKeys": {1, 2}, "CVals": {1, 2, 3}, "NWrites": 2, "NFlushes": 2, "NCompactions": 1,
                       "Procs": {"w", "f", "c", "d"}, "Guard287": True}),
         ]
+        # clear while a flush is in flight, then new writes sealed by another thread before the flush
+        # registers: the fjall#287 guard must compare memtable identities, not counts
+        scen.append(("wfkr", {"CKeys": {1, 2}, "CVals": {1, 2, 3}, "NWrites": 2, "NFlushes": 1, "NCompactions": 0,
+                              "NRotates": 1, "Procs": {"w", "f", "k", "r"}, "Guard287": True}))
         # two ordinary compactions overlapping in time (all visible tables -> last level, L0 -> L1)
         scen.append(("wfcc", {"CKeys": {1, 2}, "CVals": {1, 2, 3}, "NWrites": 2, "NFlushes": 2, "NCompactions": 1,
                               "Procs": {"w", "f", "c", "c2"}, "Guard287": True, "CScripted": True}))
